@@ -50,7 +50,7 @@ PROPS = {
     'C09': P('C09', [('ruler', 4000, 60000)], ('C09', 4000, 80000),
              "ruler stream: random rule sets (0-9 rules, aliases, absent marks, self references, duplicates, all priorities) -> order or panic class of the REAL Ruler vs Lean compile; oracle: independent greedy specification in Rust; non-trivial = at least two constraints",
              ["marks are modelled as Nat; HashMap/HashSet as lists observed through membership only"]),
-    'C10': P('C10', [], ('C10', 4000, 80000),
+    'C10': P('C10', [('lines', 300, 4000)], ('C10', 4000, 80000),
              "oracle: LF->CRLF, LF->CR and final-newline relations on the real crate for all generators x configuration sample incl. sourcepos",
              []),
     'C11': P('C11', [], ('C11', 4000, 80000),
